@@ -205,7 +205,9 @@ pub fn replay(_e: &Engine, case: &Value, obs: &mut Obs) -> Result<(), Fail> {
 pub fn cfg_strategy() -> BoxedStrategy<SvgCfg> {
     (
         prop_oneof![4 => Just(None), 2 => Just(Some(0usize)), 6 => (0usize..=16).prop_map(Some), 1 => (17usize..=300).prop_map(Some), 1 => crate::svgcase::boundary_margin(100_000).prop_map(Some)],
-        vec((0usize..6, prop_oneof![1 => Just(None), 1 => any_color().prop_map(Some)]), 0..=4),
+        // 0..4 layers mostly; sometimes a layer count around 2^k (fixed-size buffers, bit sets of layers)
+        prop_oneof![12 => (0usize..=4).boxed(), 1 => proptest::sample::select(vec![7usize, 8, 9, 15, 16, 17, 31, 32, 33, 40]).boxed()]
+            .prop_flat_map(|n| vec((0usize..6, prop_oneof![1 => Just(None), 1 => any_color().prop_map(Some)]), n)),
         prop_oneof![1 => Just(None), 2 => any_color().prop_map(Some)],
         prop_oneof![1 => Just(None), 2 => any_color().prop_map(Some)],
         prop_oneof![2 => Just(None), 3 => image_string().prop_map(Some)],
